@@ -468,6 +468,22 @@ func (e *integEngine) checkC06Shared() {
 			if st := e.stages[s.Name]; st != nil && st.Task != nil && st.Task.Skipped != want.Skipped {
 				c.Violate("C06", "skipped-flag", "stage %s: Skipped=%v, model %v", s.Name, st.Task.Skipped, want.Skipped)
 			}
+			// what the stage reports (C07): error exactly when this execution failed
+			if st := e.stages[s.Name]; st != nil {
+				wantSt := MDone
+				switch {
+				case want.Skipped:
+					wantSt = MDone // a task skipped by its own condition: the stage is done
+				case want.Failed && !s.Allow:
+					wantSt = MError
+				}
+				if got := statusName(st.ReadStatus()); got != wantSt {
+					c.Violate("C07", "stage-status", "stage %s (task %s, shared with other stages): status %s, the model of this execution (failed=%v, stage allow_failure=%v) says %s", s.Name, t.Name, got, want.Failed, s.Allow, wantSt)
+				}
+				if st.Task != nil && !want.Skipped && (st.Task.Errored != want.CmdFailed) && !(want.Failed && !want.CmdFailed) {
+					c.Violate("C07", "failed-result", "stage %s (task %s, shared): Errored=%v, a command failed without allow_failure=%v", s.Name, t.Name, st.Task.Errored, want.CmdFailed)
+				}
+			}
 			if want.Skipped {
 				c.Count("c06s_skipped_executions")
 			}
